@@ -20,7 +20,8 @@ def runs(tier, seed, criteria=None):
             crit = criteria[j % len(criteria)] if criteria else ({"max_num_trials_started": 8 + j % 4}, "started", 8 + j % 4, False)
             if crit[1] != "started" and kind not in ("fifo", "hb_stopping"):
                 # pause-and-resume schedulers may keep every trial paused: a finished / completed budget need never hold
-                crit = [c for c in criteria if c[1] == "started"][j % 2]
+                started = [c for c in criteria if c[1] == "started"]
+                crit = started[j % len(started)]
             sim_trace, tl_ev, tuner = S.run(kind, s, nw, conf, crit[0], tuner_conf={"async": j % 5 != 4, "wait": j % 6 == 5})
             tlconf = {"nw": nw, "kind": "pause", "maxfail": 3, "ckind": crit[1], "k": crit[2], "also": crit[3], "sim": True,
                       "async": j % 5 != 4, "wait": j % 6 == 5}
